@@ -17,6 +17,9 @@ type C01Params struct {
 	Rules  NetRules `json:"rules"`
 	Resume bool     `json:"resume"` // a second connection over the same stores is the one judged
 	Core   string   `json:"core"`
+	// CancelOnReturn: each side cancels the context it passed to HandshakeContext as soon as the call
+	// has returned (the usual `defer cancel()`); the session must be none the worse for it
+	CancelOnReturn bool `json:"cancel_on_return,omitempty"`
 }
 
 func c01Counts(tier string) (int, int) {
@@ -159,6 +162,7 @@ func c01Gen(r *rand.Rand, tier string, idx int) any {
 	p := &C01Params{}
 	p.C, p.Srv, p.Core = genCompatiblePair(r)
 	p.Resume = p.C.Store != "" && r.IntN(2) == 0
+	p.CancelOnReturn = r.IntN(2) == 0
 	if r.IntN(3) != 0 {
 		p.Rules = NetRules{DropPm: 30 + r.IntN(200), DupPm: r.IntN(150), HoldPm: r.IntN(150), FaultsUntilIdx: 3 + r.IntN(14),
 			HoldMaxNs: int64(time.Millisecond) * int64(10+r.IntN(3000))}
@@ -415,6 +419,7 @@ func c01Run(rc *RunCtx, params any) {
 		}
 		s.Probe("early-write-after-own-handshake")
 	}
+	pair.CancelOnReturn = p.CancelOnReturn
 	pair.StartHandshakes(0)
 	s.Run(pair.BothDone, 10*time.Minute)
 	rc.R.NonTriv = true
